@@ -25,6 +25,13 @@ theorem at_most_once (g : Graph) (ok : GraphOK g) (env : String → Option Val) 
     ∃ N o steps, (∀ fuel, N ≤ fuel → g.call env w fuel = some (o, steps)) ∧ ∀ j, calls o.mem j ≤ 1 :=
   call_once g ok env w hc hlog
 
+/-- **At most once, with cache edges** (part of `FullSpec`): also when some values are served from caches. -/
+theorem at_most_once_cached (F : Fam) (g : Graph) (ok : GraphOKC g) (env : String → Option Val) (w : World) (hc : CallOK g env)
+    (hF : F g (denCfgOf env w)) (hst : StoreSound F w) (hlog : w.log = []) :
+    ∃ N o steps, (∀ fuel, N ≤ fuel → g.call env w fuel = some (o, steps)) ∧ ∀ j, calls o.mem j ≤ 1 := by
+  obtain ⟨N, o, steps, h1, h2⟩ := call_correct_c F g ok env w hc hF hst hlog
+  exact ⟨N, o, steps, h1, h2.2.2⟩
+
 theorem asVals_map_val : ∀ vs : List Val, asVals (vs.map Item.val) = some vs
   | [] => rfl
   | v :: vs => by simp [asVals, asVals_map_val vs]
